@@ -26,8 +26,8 @@ TIME_LIMIT = {"quick": 900, "thorough": 3000}
 CASE_CPU_LIMIT = 60
 RULE = ("operation sequences on an empty CompartmentalSystemBuilder: 1-6 (quick) / 1-9 (thorough) distinctly named "
         "compartments (names include CENTRAL, METABOLITE, EFFECT, COMPLEX to reach the central-compartment branches) with "
-        "optional bolus/infusion doses, input, lag time, bioavailability; random flows (distinct symbols, shared symbols, "
-        "rational multiples, Michaelis-Menten in the source amount and occasionally in another compartment's amount; a few self-loops), 0-3 output flows; then up to 6 (12) "
+        "optional bolus/infusion doses (often on several compartments), input (single terms and sums), lag time, bioavailability, sometimes an amount function not derived from the name; random flows (distinct symbols, shared symbols, "
+        "rational multiples, sums of 2-3 distinct positive terms on about a third of the compartment-to-compartment flows, a few differences, the same Q or V symbol on several flows, Michaelis-Menten in the source amount and occasionally in another compartment's amount; a few self-loops), 0-3 output flows; then up to 6 (12) "
         "seeded builder operations (add/remove compartment, add/remove flow, move/set/add/remove dose, set lag/F/input, "
         "subs with a controlled iteration order of the compartment set, to_dict/from_dict), some through stale compartment "
         "references. Everything is compared after every operation. non-trivial = at least 2 compartments and 1 flow at "
@@ -44,7 +44,7 @@ ASSUMPTIONS = [
     "expressions are compared by exact evaluation at seeded positive rational points, amounts A_X(t) treated as free values",
     "CompartmentalSystem.subs iterates a Python set; the harness fixes that iteration order (patching statements._comps to "
     "return a list) and gives the same order to the model",
-    "to_compartmental_system is checked only on systems without self-loops and with positive rates",
+    "to_compartmental_system is checked only on systems without self-loops whose rates and inputs are sums of terms that are each positive for positive symbols",
 ]
 
 NAMES = ["CENTRAL", "DEPOT", "PERIPHERAL1", "PERIPHERAL2", "METABOLITE", "EFFECT", "COMPLEX", "TRANSIT1", "ALPHA", "ZETA", "B2", "A1"]
@@ -68,14 +68,41 @@ def gen_dose(rng, k):
     return ["inf", amt, admid, None, "DUR%d" % k]
 
 
-def gen_rate(rng, src, i, shared):
+def gen_term(rng, i, tag):
+    """one positive additive term with its own symbols (V1..V3 are deliberately shared between flows)"""
+    r = rng.random()
+    if r < 0.35:
+        return "K%d%s" % (i, tag)
+    if r < 0.6:
+        return "Q%d%s/V%d" % (i, tag, rng.randint(1, 3))
+    if r < 0.75:
+        return "KP%d%s*FR%d%s" % (i, tag, i, tag)
+    if r < 0.9:
+        return "%d*KB%d%s" % (rng.randint(2, 5), i, tag)
+    return "KE%d%s*exp(-TH%d%s)" % (i, tag, i, tag)
+
+
+def gen_rate(rng, src, i, shared, to_output=False):
+    r = rng.random()
+    # a sum of 2-3 distinct positive terms (a good share of the compartment-to-compartment flows)
+    if r < (0.2 if to_output else 0.35):
+        terms = [gen_term(rng, i, t) for t in "abc"[:rng.choice([2, 2, 3])]]
+        if shared and rng.random() < 0.4:
+            terms[0] = rng.choice(["KS", "2*KS"])
+        if rng.random() < 0.15:
+            terms.append("VM%d/(KM%d + A_%s(t))" % (i, i, src))
+        return " + ".join(terms)
+    if r < 0.365:
+        return "K%da - K%db" % (i, i)   # a difference: not syntactically positive (no equations-back monitor)
     r = rng.random()
     if shared and r < 0.5:
         return rng.choice(["KS", "2*KS", "KS/3"])
-    if r < 0.55:
+    if r < 0.5:
         return "K%d" % i
-    if r < 0.7:
+    if r < 0.65:
         return "CL%d/V%d" % (i, rng.randint(1, 3))
+    if r < 0.72:
+        return "Q/V%d" % rng.randint(1, 3)   # the same symbol Q on several flows (peripheral pattern)
     if r < 0.8:
         return "%d*Q%d/%d" % (rng.randint(2, 5), i, rng.randint(2, 7))
     if r < 0.92:
@@ -84,7 +111,10 @@ def gen_rate(rng, src, i, shared):
 
 
 def gen_expr_small(rng, tag, k):
-    return rng.choice(["%s%d" % (tag, k), "%s%d" % (tag, k), "2*%s%d" % (tag, k), "%s%d/3" % (tag, k), "0" if tag != "F" else "1"])
+    opts = ["%s%d" % (tag, k), "%s%d" % (tag, k), "2*%s%d" % (tag, k), "%s%d/3" % (tag, k), "0" if tag != "F" else "1"]
+    if tag == "R":
+        opts += ["R%da + R%db" % (k, k), "R%da + 3*R%db/2" % (k, k)]
+    return rng.choice(opts)
 
 
 def gen_case(rng: random.Random, tier: str):
@@ -114,6 +144,8 @@ def gen_case(rng: random.Random, tier: str):
             attrs["lag"] = gen_expr_small(rng, "TL", fresh())
         if rng.random() < 0.2:
             attrs["bio"] = gen_expr_small(rng, "F", fresh())
+        if rng.random() < 0.12:
+            attrs["amount"] = "X%d(t)" % fresh()   # an amount function not derived from the name
         ops.append(["addc", nm, attrs])
     # flows (interleaved order is random: edge insertion order matters to networkx)
     pairs = [(a, b) for a in names for b in names if a != b]
@@ -128,7 +160,7 @@ def gen_case(rng: random.Random, tier: str):
         flows.append(["addflow", a, a, "KSELF"])
     nout = rng.choice([0, 1, 1, 1, 1, 2, 2, 3])
     for a in rng.sample(names, min(nout, n)):
-        flows.append(["addflow", a, OUT, gen_rate(rng, a, fresh(), shared)])
+        flows.append(["addflow", a, OUT, gen_rate(rng, a, fresh(), shared, to_output=True)])
     rng.shuffle(flows)
     ops += flows
     # phase 2: edits
@@ -157,7 +189,7 @@ def gen_case(rng: random.Random, tier: str):
         elif r < 0.26:
             d = b if rng.random() < 0.8 else OUT
             if d != a or selfloops:
-                ops.append(["addflow", a, d, gen_rate(rng, a, fresh(), shared)])
+                ops.append(["addflow", a, d, gen_rate(rng, a, fresh(), shared, to_output=(d == OUT))])
         elif r < 0.36:
             ops.append(["rmflow", tgt, b if rng.random() < 0.75 else OUT])
         elif r < 0.48:
@@ -217,6 +249,14 @@ def corpus_cases():
         {"kind": "ops", "seed": 17, "ops": [_c("CENTRAL", [B1]), _c("ALPHA"), _c("PERIPHERAL1"), ["addflow", "CENTRAL", "ALPHA", "K1"],
                                              ["addflow", "ALPHA", "PERIPHERAL1", "VM/(KM + A_CENTRAL(t))"],
                                              ["addflow", "CENTRAL", OUT, "CL/V"]]},
+        # rates that are sums of several positive terms, between compartments and to the output, with other flows
+        # out of the same compartment and a zero-order input
+        {"kind": "ops", "seed": 18, "ops": [_c("CENTRAL", [B1]), _c("METABOLITE"), _c("PERIPHERAL1", inp="R1 + R2"),
+                                             ["addflow", "CENTRAL", "METABOLITE", "KM1 + KM2"],
+                                             ["addflow", "CENTRAL", "PERIPHERAL1", "Q/V1 + KX"],
+                                             ["addflow", "PERIPHERAL1", "CENTRAL", "Q/V2"],
+                                             ["addflow", "METABOLITE", OUT, "CLM/VM + KE"],
+                                             ["addflow", "CENTRAL", OUT, "CL/V1"]]},
         # mixed bolus/infusion doses are re-sorted by the doses property when moved
         {"kind": "ops", "seed": 16, "ops": [_c("DEPOT", [B1, ["inf", "AMT", 2, "R1", None]]), _c("CENTRAL", [B2]),
                                              ["addflow", "DEPOT", "CENTRAL", "KA"], ["addflow", "CENTRAL", OUT, "K"],
@@ -441,6 +481,12 @@ def mon_system(step, cs, real, rng, mon, tags, do_des):
     sl = has_selfloop(cs)
     if sl:
         tags.append("self-loop")
+    if sum(1 for c in order if c.doses) >= 2:
+        tags.append("sys:dosing>=2")
+    if any(c.input != 0 and (cs.get_compartment_outflows(c) or cs.get_compartment_inflows(c)) for c in order):
+        tags.append("sys:input+flows")
+    if any(str(c.amount) != f"A_{c.name}(t)" for c in order):
+        tags.append("sys:custom-amount")
     t = sym_of(cs.t)
     flow = lambda a, b: sym_of(cs.get_flow(a, b))  # noqa: E731
     tot = sympy.Integer(0)
@@ -485,20 +531,48 @@ def mon_system(step, cs, real, rng, mon, tags, do_des):
                         f"{cs2.compartment_names} vs {names}"})
     # equations back to a system
     if do_des and n and not sl:
-        tags.append("q:des")
-        mon_des(step, cs, order, real, rng, mon, tags)
+        if all_terms_positive(cs, order):
+            tags.append("q:des")
+            if any(len(sympy.Add.make_args(sympy.expand(sym_of(r)))) > 1 for u, v, r in cs._g.edges.data("rate") if v is not output):
+                tags.append("q:des-sum-rate-between-compartments")
+            mon_des(step, cs, order, real, rng, mon, tags)
+        else:
+            tags.append("des-skipped:non-positive-term")
+
+
+def out_terms(cs, c):
+    """additive terms of expand(rate * A_c) for every flow out of c (output included), with the destination"""
+    out = []
+    for d, r in cs.get_compartment_outflows(c):
+        for t in sympy.Add.make_args(sympy.expand(sym_of(r) * sym_of(c.amount))):
+            out.append((d, t))
+    return out
 
 
 def rates_commensurable(cs, order):
-    """some compartment has two outgoing flows (output included) whose rates are rational multiples"""
+    """some compartment has two DIFFERENT outgoing flows (output included) with additive terms that are rational
+    multiples of each other: sympy merges them into one term of the source equation (-2*KS*A), which the term
+    matching of to_compartmental_system then cannot find"""
     for c in order:
-        rs = [sym_of(r) for _, r in cs.get_compartment_outflows(c)]
-        for i in range(len(rs)):
-            for j in range(i + 1, len(rs)):
-                q = sympy.simplify(rs[i] / rs[j])
-                if q.is_Rational:
+        ts = out_terms(cs, c)
+        for i in range(len(ts)):
+            for j in range(i + 1, len(ts)):
+                if ts[i][0] != ts[j][0] and sympy.simplify(ts[i][1] / ts[j][1]).is_Rational:
                     return True
     return False
+
+
+def all_terms_positive(cs, order):
+    """every additive term of every rate and input is positive for positive symbols (what 'positive rates' means to
+    to_compartmental_system, which classifies term by term)"""
+    for c in order:
+        for _, t in out_terms(cs, c):
+            if not stm._is_positive(t):
+                return False
+        for t in sympy.Add.make_args(sympy.expand(sym_of(c.input))):
+            if t != 0 and not stm._is_positive(t):
+                return False
+    return True
 
 
 def rate_uses_other_amount(cs, order):
@@ -566,8 +640,8 @@ def run_case(case, drv):
         try:
             if kind == "addc":
                 a = op[2]
-                c = Compartment.create(op[1], doses=tuple(mk_dose(d) for d in a["doses"]), input=a["input"],
-                                       lag_time=a["lag"], bioavailability=a["bio"])
+                c = Compartment.create(op[1], amount=a.get("amount"), doses=tuple(mk_dose(d) for d in a["doses"]),
+                                       input=a["input"], lag_time=a["lag"], bioavailability=a["bio"])
                 w = ["addc", wire_node(c)]
                 sim.cb.add_compartment(c)
             elif kind == "rmc":
@@ -803,7 +877,7 @@ def mon_frame(step, op, before, after, sim, mon, tags):
     if kind == "addc":
         a = op[2]
         if op[1] not in ec:
-            ec[op[1]] = (op[1], Expr.function(f"A_{op[1]}", "t"), tuple(mk_dose(d) for d in a["doses"]), Expr(a["input"]),
+            ec[op[1]] = (op[1], Expr(a["amount"]) if a.get("amount") else Expr.function(f"A_{op[1]}", "t"), tuple(mk_dose(d) for d in a["doses"]), Expr(a["input"]),
                          Expr(a["lag"]), Expr(a["bio"]))
     elif kind == "rmc":
         nm, live = target(op[1])
